@@ -222,7 +222,19 @@ def check(case):
         nzB = [v for v in B if v != 0]
         ovl = any(overlapping(x, y, f) for x, y in zip(nzA, nzA[1:])) or (op == "multiply" and any(overlapping(x, y, f) for x, y in zip(nzB, nzB[1:])))
         rel = abs(exact - total) / (flt.ulp_frac(lead, f) if lead != 0 else f.smallest_subnormal)
-        cls = "product-error/size=1/overlapping-input" if (size == 1 and ovl) else tag + "/product-error" + ("/overlapping-input" if ovl else "")
+        def cancels(V):
+            # two terms of opposite sign and comparable magnitude (within a factor of two)
+            nz = [v for v in V if v != 0]
+            return any(x * y < 0 and max(abs(x), abs(y)) <= 2 * min(abs(x), abs(y)) for i, x in enumerate(nz) for y in nz[i + 1 :])
+
+        if size == 1 and ovl:
+            cls = "product-error/size=1/overlapping-input"
+        elif size is not None and ovl and (cancels(A) or (op == "multiply" and cancels(B))):
+            # a size limit applied to the partial products of an input whose leading terms cancel (the value of the
+            # expansion is much smaller than its first term)
+            cls = "product-error/size-limited/cancelling-input"
+        else:
+            cls = tag + "/product-error" + ("/overlapping-input" if ovl else "")
         out.append((cls, "%s(%s, %s, size=%s) = %s differs from the exact product by %.3g >= ulp(leading term)" % (op, show(s1), show(s2), size, [float(v) for v in r], float(exact - total))))
     return "in", out
 
